@@ -24,6 +24,11 @@ Scopes (see run()):
       a fresh process
   S8  fine-grained numerics inside the quantifier: damping / tolerance / resolution at dyadic gaps (2^-40 .. 2^-36)
       around 0, 1/2, 0.85, 1, exact modularity-gain ties, tolerances 0 / 1e-300 / >= 1, max_iter 1..3 and 100/101
+  S9  presentation diversity (checks/C15_round3.py): the generators of S1/S3/S5/S6 under unusual but legal node labels (None, falsy
+      values, tuples, pairs whose head is a node, frozensets, "1" next to 1, ints mixed with floats), fresh equal copies of labels
+      (1 / 1.0 / True), container kinds for `nodes` and for the neighbour lists (persistent caller-owned lists, tuples, deques, dict
+      views, generators, iter, map), kinds of neighbour callables; oracle on the integer instance mapped to the labels; frame clause
+      'caller-owned inputs unchanged' and 'the same call repeated gives the same answer'
 """
 from __future__ import annotations
 
@@ -987,6 +992,9 @@ def _work(task, scope, acc):
     elif scope == "S8":
         _, idx, count, seed = task
         numeric_task(idx, count, seed, acc)
+    elif scope == "S9":
+        from checks import C15_round3
+        C15_round3.task(sys.modules[__name__], task, acc)
     else:
         raise ValueError(scope)
 
@@ -1116,8 +1124,13 @@ def run(ctx: Ctx):
                             graphs="random digraphs on 2..7 nodes with dangling nodes, self loops, parallel arcs; 4 configurations each"),
               louvain=dict(resolution="2^-40, 1 +- 2^-40, 2 +- 2^-40, 2, 1e-9, 1024, 2^20 and exact ties 2m*e/(d*s) of the move gain with "
                                       "relative offsets -2^-40, +2^-40, +2^-36; 6 per graph", graphs="structured 6..12 nodes / G(n, 1/2) on 2..6 nodes"))
+    from checks import C15_round3
+    t9, d9 = C15_round3.tasks(sys.modules[__name__], q, seed)
+    tasks += t9
+    ctx.scope("S9 presentation diversity: the structural generators of S1/S3/S5/S6 handed over under unusual but legal node labels, equal copies of "
+              "labels, container kinds for `nodes` and for the neighbour lists, kinds of neighbour callables; every call made twice", **d9)
     # heavy tasks first
-    order = {"S3": 0, "S1": 1, "S7": 2, "S6": 3, "S5": 4, "S8": 5, "S2r": 6, "S4": 7, "S2x": 8}
+    order = {"S3": 0, "S1": 1, "S7": 2, "S6": 3, "S5": 4, "S9": 4, "S8": 5, "S2r": 6, "S4": 7, "S2x": 8}
     def weight(t):
         w = t[2] if t[0] == "S6" else t[1]
         return -w if isinstance(w, int) else 0
@@ -1194,6 +1207,14 @@ def run(ctx: Ctx):
         "R1 'return' for every graph includes graphs whose DFS is deep: a RecursionError is reported under <fn>/returns[recursion-depth] "
         "(separate obligation, so that it can be triaged on its own)",
         "nodes are distinct; neighbour functions are pure for the duration of a call (history mode edits the data they read only between calls)",
+        "L1 (S9) node labels are arbitrary hashable values and a node is what ==/hash say it is (1, 1.0 and True name the same node: the functions "
+        "test `w in node_set`); bridges and louvain are only given totally ordered label sets (bridges documents '(u, v) with u < v', louvain "
+        "uses `<` on labels by the same convention; unorderable or partially ordered labels - None next to ints, str next to int, frozensets - "
+        "are outside their domain and not judged, see triage/C15_round3.md); nodes labelled None ARE judged for articulation_points, "
+        "kcore_decomposition, kcore and pagerank (repaired in /repo dd0ffbc)",
+        "L2 (S9) `nodes` may be any iterable (one-shot ones included) and neighbours(v) may return any iterable; containers owned by the caller "
+        "(node list, neighbour lists / tuples / deques / dicts) must be left as they were: <fn>/frame:caller-owned-inputs-unchanged; every call is "
+        "made twice on the same presentation and must return the same value: <fn>/ensures:same-call-same-answer",
     ]
     ctx.trusted += ["oracles/c15_graph.py (brute-force definitions over Fractions; self-checked on hand-computed graphs at start)",
                     "oracles/c15_big.py (low-point DFS, chain decomposition, work-list peeling, block-tree constructions: compared with the brute force "
@@ -1205,6 +1226,9 @@ def replay(rec) -> int:
     use_repo()
     signal.signal(signal.SIGVTALRM, _alarm)
     case = rec["case"]
+    if case.get("mode") == "pres":
+        from checks import C15_round3
+        return C15_round3.replay(sys.modules[__name__], case)
     if case.get("mode") == "history":
         print("replay: history sequence, neighbour callable", case["nb_kind"], "init", case["init"])
         res = run_history(case)
